@@ -24,6 +24,10 @@ CLAIMED = {
  "C11": ("Coq theorem over all traces and all prefixes (= every point at which evaluation can stop with an error): if every write targets an object the execution allocated itself, every object of the caller's document keeps its content; the repaired marker protocol (scope copy) is fresh, the pinned one is refuted. Tied to the source on every run by (a) the regenerated mutation-site table (go/ast translator, 96 sites today) checked in Coq against the fresh-or-audited criterion and (b) cycle-safe deep comparison of the input after every generated query of every shape, with and without Wrapped, incl. queries failing part-way.",
          "Trusted: Coq kernel/VM; the translator's syntactic provenance rule and the audited list (Gen/SiteRules.v); Go's aliasing semantics; harness deep comparison. Theorems closed under the global context.",
          "machine-checked proof in Coq (trace theorem) + structural obligation regenerated from source and checked by vm_compute + deep-comparison correspondence"),
+ "C06": ("Coq theorems for all row lists: DISTINCT with an exact fingerprint = keep-first-occurrence (no duplicates, same set, exactly once, subsequence, first-occurrence position, idempotent), lifted to run_select; UNION ALL = concatenation, UNION = nodup_first of it, chains of any length k >= 2 with any mix of flags through exec, trailing LIMIT/OFFSET = window of the combined list; the pinned %v fingerprint is refuted by a witness pair. Tie: tables with planted duplicates that differ only in kind or %v text, UNION chains of 2-4 branches with random ALL flags and LIMIT, exact sequences through the real engine and the model.",
+         "Trusted: Coq kernel/VM, engine model, injectivity of sha256 over the Go-syntax text, harness. One theorem (C06_feq_laws_binary64) lists the stdlib axiom FloatAxioms.eqb_spec; the others only primitive float/int63 declarations.", None),
+ "C08": ("Coq theorems for documents of any nesting depth (ragged, empty inner arrays): the copied query agrees with the original on every clause exec consults (pinned CopyQuery refuted), the result of a simple query over an array of arrays has the same nesting and each inner result equals the query run directly on that inner array, and for plain queries mix=> returns the concatenation of the inner results. Tie: generated nested documents (depth 2-3) x filter/projection/aggregate queries, a quarter through mix=>, exact nested results through the real engine and the model.",
+         "Trusted: Coq kernel/VM, engine model, harness. Print Assumptions: only primitive float/int63 declarations.", None),
 }
 
 NOT_YET = "check not built yet in this round (work in progress; planned as Coq proof + correspondence per DESIGN.md)"
